@@ -47,6 +47,50 @@ func CheckMetafile(rc *RunCtx, rec *BuildRec, label string) *Violation {
 		return viol("duplicate-key", strings.Join(dups, ","), "metafile lists key(s) %v twice in one object", dups)
 	}
 	rc.Probe("metafile_checked")
+	metaAbs := rec.Opts.AbsPaths&api.MetafileAbsPath != 0
+	inKey := func(rel string) string {
+		if metaAbs {
+			return absOf(root, rel)
+		}
+		return path.Clean(rel)
+	}
+	styleOK := func(pth string) bool {
+		if strings.HasPrefix(pth, "<") || strings.HasPrefix(pth, "data:") || (strings.Contains(pth, ":") && !strings.HasPrefix(pth, "/")) {
+			return true
+		}
+		return strings.HasPrefix(pth, "/") == metaAbs
+	}
+	for k, in := range mf.Inputs {
+		if !styleOK(k) {
+			return viol("path-style", "", "input key %q does not use the configured metafile path style (absolute=%v)", k, metaAbs)
+		}
+		for _, im := range in.Imports {
+			if !im.External && !styleOK(im.Path) {
+				return viol("path-style", "", "import %q of input %q does not use the configured metafile path style (absolute=%v)", im.Path, k, metaAbs)
+			}
+		}
+	}
+	for k, mo := range mf.Outputs {
+		if !styleOK(k) {
+			return viol("path-style", "", "output key %q does not use the configured metafile path style (absolute=%v)", k, metaAbs)
+		}
+		for _, im := range mo.Imports {
+			if !im.External && !styleOK(im.Path) {
+				return viol("path-style", "", "import %q of output %q does not use the configured metafile path style (absolute=%v)", im.Path, k, metaAbs)
+			}
+		}
+		if mo.EntryPoint != "" && !styleOK(mo.EntryPoint) {
+			return viol("path-style", "", "entryPoint %q of output %q does not use the configured metafile path style", mo.EntryPoint, k)
+		}
+		if mo.CSSBundle != "" && !styleOK(mo.CSSBundle) {
+			return viol("path-style", "", "cssBundle %q of output %q does not use the configured metafile path style", mo.CSSBundle, k)
+		}
+		for ik := range mo.Inputs {
+			if !styleOK(ik) {
+				return viol("path-style", "", "input %q of output %q does not use the configured metafile path style", ik, k)
+			}
+		}
+	}
 	// outputs <-> OutputFiles
 	outBytes := map[string]string{}
 	for _, f := range r.OutputFiles {
@@ -158,7 +202,7 @@ func CheckMetafile(rc *RunCtx, rec *BuildRec, label string) *Violation {
 			if _, exists := rec.Before[absOf(root, e)]; !exists {
 				continue // resolved to something else (e.g. x.js -> x.ts) or not at all
 			}
-			if _, ok := mf.Inputs[path.Clean(e)]; !ok && !strings.Contains(e, "*") {
+			if _, ok := mf.Inputs[inKey(e)]; !ok && !strings.Contains(e, "*") {
 				return viol("entry-missing", "", "entry point %q is not listed as an input (inputs: %v)", e, keysOfIn(mf.Inputs))
 			}
 		}
@@ -198,7 +242,7 @@ func CheckMetafile(rc *RunCtx, rec *BuildRec, label string) *Violation {
 				// "M1@1" is a prefix of "M1@10": require a non-digit after the marker
 				has = markerRe(marker).MatchString(c)
 			}
-			attributed := mo.Inputs[m.Path].BytesInOutput > 0
+			attributed := mo.Inputs[inKey(m.Path)].BytesInOutput > 0
 			if has && !attributed {
 				rc.Probe("marker_checked")
 				return viol("marker-without-bytes", "", "output %s contains the marker %q of %s but the metafile attributes no bytes of it to that input (inputs of the output: %v)", p, marker, m.Path, mo.Inputs)
@@ -209,7 +253,7 @@ func CheckMetafile(rc *RunCtx, rec *BuildRec, label string) *Violation {
 				}
 				rc.Probe("marker_checked")
 				debugDump(rec, p)
-				return viol("bytes-without-marker", "", "metafile attributes %d bytes of output %s to %s but its marker %q does not occur there", mo.Inputs[m.Path].BytesInOutput, p, m.Path, marker)
+				return viol("bytes-without-marker", "", "metafile attributes %d bytes of output %s to %s but its marker %q does not occur there", mo.Inputs[inKey(m.Path)].BytesInOutput, p, m.Path, marker)
 			}
 			if has {
 				rc.Probe("marker_present_and_attributed")
@@ -544,9 +588,13 @@ func checkSegments(rc *RunCtx, rec *BuildRec, mf *Metafile, metaOut map[string]M
 		}
 		var hits []hit
 		for k := range mo.Inputs {
-			line := "// " + k + "\n"
+			shown := k // path comments in the code are always relative to the working directory
+			if strings.HasPrefix(k, "/") {
+				shown = stripRoot(k, rec.Model.Root)
+			}
+			line := "// " + shown + "\n"
 			if isCSS {
-				line = "/* " + k + " */\n"
+				line = "/* " + shown + " */\n"
 			}
 			from := 0
 			for {
